@@ -148,6 +148,19 @@ fn api_case(ctx: &Ctx, stream: &str, idx: u64, cfg: &WCfg, klen: usize, vlen: us
     };
     let r = guarded(|| -> Result<(Vec<Entry>, Option<Entry>), String> {
         let mut c = Reader::new(Cursor::new(&bytes[..])).and_then(|r| r.into_cursor()).map_err(|e| e.to_string())?;
+        // backward first (move_on_prev from a fresh cursor starts at the last entry)
+        let mut back = Vec::new();
+        while let Some((k, v)) = c.move_on_prev().map_err(|e| e.to_string())? {
+            back.push((k.to_vec(), v.to_vec()));
+            if back.len() > 5 {
+                break;
+            }
+        }
+        back.reverse();
+        if back != entries {
+            return Err(format!("backward scan yields {} entries with lengths {:?}", back.len(), back.iter().map(|(k, v)| (k.len(), v.len())).collect::<Vec<_>>()));
+        }
+        c.reset();
         let mut out = Vec::new();
         while let Some((k, v)) = c.move_on_next().map_err(|e| e.to_string())? {
             out.push((k.to_vec(), v.to_vec()));
